@@ -61,7 +61,7 @@ contract("C12.error_handler_init", file=E, func="ErrorHandler.__init__",
 
 contract("C01.validate", file=V, func="HedValidator.validate",
          params={"self": "HedValidator", "hed_string": "HedString", "allow_placeholders": "Bool", "error_handler": "Opt[ErrorHandler]"},
-         returns="List[Issue]", enc="native",
+         returns="List[Issue]", enc="native", also=["C12"],
          modifies=["heap:Issue.char_index", "heap:Issue.char_index_end", "heap:Issue.has_char_index",
                    "heap:Issue.has_char_index_end", "heap:Issue.message"],
          lets={"basic": "basic_issues_of(self, hed_string, allow_placeholders)", "full": "full_issues_of(self, hed_string)",
